@@ -129,12 +129,12 @@ func cleanPath(path string) string {
 	}
 	var b = []byte(path)
 	for i := 0; i < len(b); i++ {
-		if b[i] == '/' {
-			if b[i+1] == '.' && b[i+2] == '.' {
-				s := bytes.LastIndexByte(b[:i], '/')
-				b = append(b[:s+1], b[i+4:]...)
-				i = s - 1
-			}
+		// Look for a ".." element, that is "/.." followed by '/' or by the
+		// end of the path.
+		if b[i] == '/' && i+2 < len(b) && b[i+1] == '.' && b[i+2] == '.' && (i+3 == len(b) || b[i+3] == '/') {
+			s := bytes.LastIndexByte(b[:i], '/')
+			b = append(b[:s+1], b[min(i+4, len(b)):]...)
+			i = max(s-1, -1)
 		}
 	}
 	return string(b)
